@@ -187,7 +187,7 @@ def hyp_seed(seed, shard, salt=0):
     return (int(seed) * 1000003 + shard * 7919 + salt * 104729) % (2 ** 63)
 
 
-def run_hypothesis(ctx, prop, strategies, max_examples, salt=0, shrink=True, exclude_buckets=True, rounds=3):
+def run_hypothesis(ctx, prop, strategies, max_examples, salt=0, shrink=True, exclude_buckets=True, rounds=3, minimise=None):
     """Run `prop(*drawn)` under Hypothesis. prop raises Violation on a property failure.
 
     Every failure is shrunk by Hypothesis; the shrunk case (the last failing execution, which is
@@ -224,6 +224,13 @@ def run_hypothesis(ctx, prop, strategies, max_examples, salt=0, shrink=True, exc
             return
         except Violation as v:
             v = last.get('v', v)
+            if minimise is not None:
+                try:
+                    v = minimise(v) or v
+                except Violation as v2:
+                    v = v2
+                except Exception:  # pylint: disable=broad-except
+                    pass     # minimisation is best effort; the unminimised case is still a valid replay
             ctx.violation(v)
             if not exclude_buckets:
                 return
